@@ -225,6 +225,46 @@ def run(world, rep, tier, only=None):
         ("ext2fs_rb_private", "rcursor_next") in T.fields(n.ev.get("rhs") or {}) for n in tb.events("S")),
         "rb_test_bit reads bp->rcursor_next")
 
+    # ------------------------------------------------------------------ C16.c inclusive ends
+    # `end` and `real_end` of a bitmap are the numbers of its *last* bits.  A loop that visits the bits one by one
+    # upwards and is bounded by one of them (directly or through locals, e.g. min(new_end, real_end)) therefore
+    # compares with <=; a strict < silently leaves the last bit out (compare, clear-padding, copy loops).  Twins of
+    # the 32- and 64-bit layers are held to the same rule, which is how their agreement is decided.
+    BFILES = ("lib/ext2fs/gen_bitmap.c", "lib/ext2fs/gen_bitmap64.c", "lib/ext2fs/blkmap64_ba.c", "lib/ext2fs/blkmap64_rb.c",
+              "lib/ext2fs/bitmaps.c")
+
+    def is_end(y):
+        return y.get("k") == "m" and y.get("f") in ("end", "real_end") and "bitmap" in (y.get("r") or "")
+    n_loops = 0
+    for f in prog.functions():
+        if f.file not in BFILES:
+            continue
+        for bid, b in f.blocks.items():
+            t = b.get("t")
+            if not t or t.get("k") not in ("for", "while", "do") or not isinstance(t.get("c"), dict):
+                continue
+            for x in T.walk(t["c"]):
+                if not (isinstance(x, dict) and x.get("k") == "b" and x.get("o") in ("<", ">", "<=", ">=")):
+                    continue
+                for iv, bound, op in ((x["l"], x["r"], x["o"]),
+                                      (x["r"], x["l"], {"<": ">", ">": "<", "<=": ">=", ">=": "<="}[x["o"]])):
+                    ivp = T.path(iv)
+                    if ivp is None or T.strip(iv).get("k") != "v" or op not in ("<", "<="):
+                        continue
+                    if not depends_on(f, bound, is_end):
+                        continue
+                    # unit-step ascending induction variable
+                    steps = [n for n in f.events("S") if T.path(n.ev["lhs"]) == ivp and (
+                        n.ev.get("o") == "++" or (n.ev.get("o") == "+=" and T.const(n.ev.get("rhs")) == 1))]
+                    if not steps:
+                        continue
+                    plus1 = any(isinstance(y, dict) and y.get("k") == "b" and y.get("o") == "+" and 1 in (T.const(y.get("l")), T.const(y.get("r")))
+                                for y in T.walk(bound))
+                    n_loops += 1
+                    rep.ob("C16.c", site(f, "bit-by-bit loop reaches the inclusive end `%s`" % T.pp(bound)[:30]), op == "<=" or plus1,
+                           "`%s %s %s` with %s stepping by one: the bound is the last valid bit" % (T.pp(iv), op, T.pp(bound)[:40], ivp))
+    rep.floor("C16.c unit-step loops bounded by end/real_end", n_loops, 3)
+
 
 def _range_check(fn, rep, calls, sh, v):
     """the converted value is compared against bitmap->start/end before the dispatch, failing arm leaves"""
